@@ -27,6 +27,11 @@ inductive SimFault where
   | fuel              -- `pick_next` recursion fuel exhausted (never: see C19)
   deriving Repr, DecidableEq, Inhabited
 
+/-- `Instant::duration_since` / `Instant - Instant`: saturating at zero.  `std::time::Instant`
+    is bounded (i64 seconds), so a difference can never exceed `Duration::MAX`; on the model's
+    unbounded `Int` time axis this is made explicit by clamping at `durMax`. -/
+def dsince (a b : Int) : Nat := min (durSince a b) durMax
+
 structure SimEvent where
   event : TEvent
   time : Int
@@ -128,11 +133,11 @@ def peek (q : EventQueue) (delaySum : Nat) (now : Int) : Except SimFault (Option
   let n := q.base.peek
   if before n first delaySum then
     match n with
-    | some e => .ok (n, .base, durSince (e.time + delaySum) now)
+    | some e => .ok (n, .base, dsince (e.time + delaySum) now)
     | none => .error (.unwrapNone 1)
   else
     match first with
-    | some e => .ok (first, qi, durSince e.time now)
+    | some e => .ok (first, qi, dsince e.time now)
     | none => .error (.unwrapNone 2)
 
 /-- `EventQueue::pop`; outer `none` = the queue was empty (`None` result), `base.pop().unwrap()`
